@@ -514,6 +514,7 @@ PAYLOAD_POOL = ["1", "0", "42", "21.5", "on", "", "Off", "HeatOn", "ff00ff", "ff
 
 
 _SCHEMAS = {}
+_SPEC = []
 
 
 def valid_payload_for(rng, const, mtype, sub):
@@ -848,6 +849,22 @@ def gen_malformed(rng, version, sym):
         return (f"{rng.choice([node, 256, -1, 1000])};{rng.choice([0, 255, 256, -1])};"
                 f"{rng.choice([0, 1, 2, 3, 4, 5, -1])};{rng.choice([0, 1, 2, -1])};"
                 f"{rng.choice([0, 1, 16, 22, 32, 33, 34, 47, 48, 56, 57, 99, -1])};{rng.choice(PAYLOAD_POOL)}\n")
+    if r < 0.62:
+        # a defined command and sub-type of this version with a payload from the boundary corpus of its rule
+        # (C03's): one field short or long, blanks, other digit systems, values just outside the range ...
+        from . import c03
+        if not _SPEC:
+            _SPEC.append(c03.load_spec())
+        typ = rng.choice([0, 1, 1, 1, 2, 3, 3])
+        subs = sorted(int(x) for x in _SPEC[0]["versions"][version]["commands"][str(typ)]["sub_types"])
+        sub = rng.choice(subs)
+        rule = c03.spec_rule(_SPEC[0], version, typ, sub)
+        if rule is not None and not rule.startswith("text"):
+            kids = list(sym.nodes.get(node, {}).get("children", {})) or [0]
+            child = 255 if typ == 3 or (typ == 0 and sub in (17, 18)) else rng.choice(kids)
+            payload = rng.choice(c03.class_corpus(rule))
+            if ";" not in payload and "\n" not in payload and len(payload) < 200:
+                return f"{node};{child};{typ};0;{sub};{payload}\n"
     if r < 0.8:
         # valid header, arbitrary payload
         typ = rng.choice([0, 1, 2, 3, 4])
